@@ -187,6 +187,8 @@ def check(P, rep):
     include_rules(P, rep, 'C05.R7', 'c12', lambda o: o['rule'] in ('C12.R1', 'C12.R2') and any(x in (o.get('key') or '') + (o.get('site') or '') for x in
                                                                                       ('::burn ', '::mint ', '::transfer ', 'burn:', 'mint:', 'transfer:')),
                   'service-deployed token burns / mints / transfers exactly the amount (T9: the deployed wasm is built from contracts/interchain-token)', 10)
+    include_rules(P, rep, 'C05.R7', 'c10', lambda o: o['rule'] in ('C10.R4',) or (o['rule'] in ('C10.R2', 'C10.R3', 'C10.R8') and 'encod' in o['what'] + (o.get('key') or '')),
+                  'the announced payload is the ITS wire encoding of the transfer message (codec encode side, layouts)', 10)
     include_rules(P, rep, 'C05.R7', 'c10', lambda o: o['rule'] in ('C10.R5', 'C10.R1') or (o['rule'] == 'C10.R3' and 'InterchainTransfer' in o['what']) or
                   (o['rule'] == 'FLOOR' and 'amount' in o['what']),
                   'the amount / token id / addresses credited are exactly the announced ones (strict decode, range-checked amount conversion, field mapping)', 15)
